@@ -772,6 +772,23 @@ def gen_reuse_session(rng, style):
     return {"kind": kind, "user": user, "pw": pw, "steps": steps}
 
 
+def one_event_per_cookie(sess):
+    """Invariant of every generated session, enforced just before it is executed (whatever a generator
+    did to paths afterwards): ONE response never carries two Set-Cookie lines about the same
+    (effective path, name).  http.cookiejar applies the expiries of a response before its sets,
+    whatever their order; what a self-contradicting response means is the standard library's
+    business and not part of the property."""
+    for st in sess["steps"]:
+        keys, kept = set(), []
+        for e in st["cookies"]:
+            key = (e[1] if e[1] is not None else default_cookie_path(st["path"]), e[2])
+            if key not in keys:
+                keys.add(key)
+                kept.append(e)
+        st["cookies"] = kept
+    return sess
+
+
 def hexs(b):
     return None if b is None else bytes(b).hex()
 
@@ -1096,6 +1113,7 @@ def run(ck):
                 st["via"] = None
     xcases, xobs = [], []
     for s in sessions:
+        one_event_per_cookie(s)
         obs = run_session(server, s, clients)
         xobs.append(obs)
         xcases.append(c_xcase(s, obs, clients, blobs))
